@@ -33,9 +33,10 @@ Theorem C15_register_builtins_rebinds : forall rt name,
 Proof. exact rt_get_register_builtins. Qed.
 Print Assumptions C15_register_builtins_rebinds.
 
-(** The builtin names are the 26 of the specification, each bound to the modelled
-    implementation of the struct registered under that name in runtime.rs. *)
-Theorem C15_builtin_entries : map fst builtin_entries = map fst spec_table /\ length builtin_entries = 26%nat.
+(** The builtin names are the 26 of the specification (each registered once, in
+    whatever order), each bound to the modelled implementation of the struct
+    registered under that name in runtime.rs. *)
+Theorem C15_builtin_entries : same_names (map fst builtin_entries) (map fst spec_table) = true /\ length builtin_entries = 26%nat.
 Proof. vm_compute. split; reflexivity. Qed.
 Print Assumptions C15_builtin_entries.
 
